@@ -125,7 +125,35 @@ pub fn compile_programs(
         std::fs::write(&path, &src).map_err(|e| e.to_string())?;
         match run::compile(&mut db, &path, cfg) {
             Ok(c) => return Ok((c, alive)),
-            Err(CompileError::Internal(e)) => return Err(e),
+            Err(CompileError::Internal(e)) => {
+                // the compiler itself failed on the crate: find the programs it fails on, one
+                // program per crate (cheap: the core library stays cached in the db)
+                let mut bad = vec![];
+                for (k, i) in alive.iter().enumerate() {
+                    let (src1, _) = crate_source(std::slice::from_ref(&progs[*i]));
+                    let p1 = dir.join(format!("{name}_a{attempt}_single{k}.cairo"));
+                    std::fs::write(&p1, &src1).map_err(|e| e.to_string())?;
+                    match run::compile(&mut db, &p1, cfg) {
+                        Ok(_) => {}
+                        Err(CompileError::Internal(e1)) => {
+                            rejected.push((progs[*i].cairo(), format!("INTERNAL: {e1}")));
+                            bad.push(*i);
+                        }
+                        Err(CompileError::Diagnostics(d)) => {
+                            let first = d.lines().find(|l| l.starts_with("error")).unwrap_or("").to_string();
+                            rejected.push((progs[*i].cairo(), first));
+                            bad.push(*i);
+                        }
+                    }
+                }
+                if bad.is_empty() {
+                    return Err(format!("{e} (on the whole crate only)"));
+                }
+                alive.retain(|i| !bad.contains(i));
+                if alive.is_empty() {
+                    return Err("every program was rejected by the compiler".into());
+                }
+            }
             Err(CompileError::Diagnostics(d)) => {
                 // lines " --> path:LINE:COL"
                 let mut bad: Vec<usize> = vec![];
@@ -321,6 +349,19 @@ fn main_c01(out: &Path, tier: &str, seed: u64) {
             }
         }
     }
+    for r in &runs {
+        for (src, msg) in &r.rejected {
+            if let Some(m) = msg.strip_prefix("INTERNAL: ") {
+                failures.push(serde_json::json!({
+                    "why": "the compiler panics on a well-typed generated program",
+                    "crate": r.idx, "panic": m, "source": src,
+                }));
+            }
+        }
+        if let Some(f) = &r.fatal {
+            failures.push(serde_json::json!({"why": "a generated crate could not be compiled at all", "crate": r.idx, "panic": f}));
+        }
+    }
     std::fs::write(out.join("oracle_failures.json"), serde_json::to_string_pretty(&failures).unwrap()).unwrap();
 
     let n_shards = write_shards(out, &runs);
@@ -446,7 +487,9 @@ pub fn felt_text(v: &num_bigint::BigInt) -> String {
 }
 
 fn main() {
-    vcommon::quiet_panics();
+    if std::env::var("H01_BT").is_err() {
+        vcommon::quiet_panics();
+    }
     let a: Vec<String> = std::env::args().collect();
     if a.len() < 3 {
         eprintln!("usage: h01 <out-dir> <tier> [c01|c05]");
